@@ -111,12 +111,12 @@ func (h *host) GetCommittee(_ context.Context, instance uint64) (*gpbft.Committe
 	}
 	return nil, errors.New("no committee")
 }
-func (h *host) NetworkName() gpbft.NetworkName                  { return h.w.nets[0] }
-func (h *host) RequestBroadcast(*gpbft.MessageBuilder) error     { return nil }
-func (h *host) RequestRebroadcast(gpbft.Instant) error           { return nil }
-func (h *host) Time() time.Time                                  { return time.Unix(0, 0) }
-func (h *host) SetAlarm(time.Time)                               {}
-func (h *host) Verify(k gpbft.PubKey, msg, sig []byte) error     { return h.w.backend.Verify(k, msg, sig) }
+func (h *host) NetworkName() gpbft.NetworkName                      { return h.w.nets[0] }
+func (h *host) RequestBroadcast(*gpbft.MessageBuilder) error        { return nil }
+func (h *host) RequestRebroadcast(gpbft.Instant) error              { return nil }
+func (h *host) Time() time.Time                                     { return time.Unix(0, 0) }
+func (h *host) SetAlarm(time.Time)                                  {}
+func (h *host) Verify(k gpbft.PubKey, msg, sig []byte) error        { return h.w.backend.Verify(k, msg, sig) }
 func (h *host) Aggregate(k []gpbft.PubKey) (gpbft.Aggregate, error) { return h.w.backend.Aggregate(k) }
 func (h *host) ReceiveDecision(context.Context, *gpbft.Justification) (time.Time, error) {
 	return time.Time{}, nil
@@ -618,7 +618,9 @@ func (w *world) positives(cv int) []int {
 func (w *world) power(cv int, idx []int) int64 {
 	var s int64
 	for _, i := range idx {
-		s += w.comts[cv].c.PowerTable.ScaledPower[i]
+		if i < len(w.comts[cv].c.PowerTable.ScaledPower) { // stacked mutations may carry indices of another variant
+			s += w.comts[cv].c.PowerTable.ScaledPower[i]
+		}
 	}
 	return s
 }
@@ -1379,7 +1381,7 @@ func (w *world) opPrune() {
 type item struct {
 	r    *msgR
 	pm   *pmR
-	kind int // 0 validate, 1 two-stage, 2 strip, 3 sequence of sub-items executed back to back, 4 host flow
+	kind int  // 0 validate, 1 two-stage, 2 strip, 3 sequence of sub-items executed back to back, 4 host flow
 	rel  bool // present at a progress where the message is relevant
 	seq  []item
 }
